@@ -124,7 +124,12 @@ def r3(p, rep):
                 else:
                     bad.append(n)
             elif isinstance(n, ast.Assign) and any(isinstance(x, ast.Name) and x.id == var for x in n.targets):
-                bad.append(n)
+                # `end = pos + len(lit); ...; pos = end` is the increment written in two steps
+                e = cfg.expand(n.value, cfg.node_for(n)) if cfg.node_for(n) is not None else n.value
+                if len(n.targets) == 1 and isinstance(e, ast.BinOp) and isinstance(e.op, ast.Add) and isinstance(e.left, ast.Name) and e.left.id == var and _positive(p, ev, e.right, n):
+                    incs.append(n)
+                else:
+                    bad.append(n)
         site = f"{f.module.rel}:{w.lineno}"
         key = f"{f.qualname}:while({norm(t)})"
         if bad:
